@@ -1000,7 +1000,11 @@ class Sense(_Relatable):
             Word('pwn-spigot-n')
 
         """
-        return self._wordnet.word(id=self._entry_id)
+        for lexid in self._home_lexicon_ids():
+            data = next(find_entries(id=self._entry_id, lexicon_rowids=(lexid,)), None)
+            if data is not None:
+                return Word(*data, _wordnet=self._wordnet)
+        raise wn.Error(f'no such lexical entry: {self._entry_id}')
 
     def synset(self) -> Synset:
         """Return the synset of the sense.
@@ -1011,7 +1015,21 @@ class Sense(_Relatable):
             Synset('pwn-03325088-n')
 
         """
-        return self._wordnet.synset(id=self._synset_id)
+        for lexid in self._home_lexicon_ids():
+            data = next(find_synsets(id=self._synset_id, lexicon_rowids=(lexid,)), None)
+            if data is not None:
+                return Synset(*data, _wordnet=self._wordnet)
+        raise wn.Error(f'no such synset: {self._synset_id}')
+
+    def _home_lexicon_ids(self) -> list[int]:
+        # The word and synset of a sense are in the sense's own lexicon
+        # or, for a lexicon extension, in a lexicon it extends. Other
+        # lexicons may reuse the same identifiers (e.g., another version
+        # of the same lexicon), so don't search them.
+        lexids = [self._lexid, *get_lexicon_extension_bases(self._lexid)]
+        if not self._wordnet._default_mode:
+            lexids = [i for i in lexids if i in self._wordnet._lexicon_ids]
+        return lexids
 
     def examples(self) -> list[str]:
         """Return the list of examples for the sense."""
